@@ -13,7 +13,8 @@ def main():
     w = World()
     for p in glob.glob(os.path.join(os.path.dirname(__file__), "specs", "*.py")):
         w.load_specs(p)
-    importlib.import_module("contracts." + mod)
+    for m in mod.split(","):
+        importlib.import_module("contracts." + m)
     I = Interp(w, dsl.REG)
     tot = 0; bad = 0
     for q, c in dsl.REG.contracts.items():
